@@ -3,8 +3,8 @@ sys.path.insert(0,'/verif/mir2smt'); sys.path.insert(0,'/verif/harness'); sys.pa
 import mir as mirmod, schema as schemamod, cases as casesmod, validate
 import importlib
 pid, idx = sys.argv[1], int(sys.argv[2]); tier = sys.argv[3] if len(sys.argv)>3 and not sys.argv[3].startswith('--') else 'quick'
-m = mirmod.load(); sc = schemamod.SrcSchema(); sc.reconcile(m.struct_fields)
 mod = importlib.import_module(pid)
+m = mirmod.load(); sc = getattr(mod,'SC',None) or schemamod.SrcSchema(); sc.reconcile(m.struct_fields)
 case = mod.m_cases(tier)[idx]
 native = casesmod.Native('/verif/build/target-runner/debug/verif-runner') if '--nonative' not in sys.argv else None
 t=time.time()
